@@ -291,11 +291,22 @@ def run(ctx):
             # the same site with a sub-expression hoisted into a named local (`let k = self.params.nb_source_symbols; &v[..k]`): compare the
             # site's text with single-definition locals substituted
             t_ = s.func.body.blocks[s.bb].term
+            sl_ = _slicer_cache.setdefault(s.func.path, Slicer(s.func.body))
+            txt2 = None
             if t_.k == "call":
-                sl_ = _slicer_cache.setdefault(s.func.path, Slicer(s.func.body))
                 txt2 = show(sl_.expand(sl_.x.call_expr(s.bb, t_, sl_.x.depth)), 160)
-                if txt2 != s.text:
-                    ent = T.lookup(T.SITES, "%s|%s|%s" % (s.func.path, s.kind, txt2), n, used_shapes)
+            elif t_.k == "assert" and "(" in s.text:
+                txt2 = "%s(%s)" % (s.text.split("(", 1)[0], ", ".join(show(sl_.expand(sl_.x.operand(o)), 70) for o in t_.ops))
+            if txt2 is not None and txt2 != s.text:
+                ent = T.lookup(T.SITES, "%s|%s|%s" % (s.func.path, s.kind, txt2), n, used_shapes)
+                if ent is None:
+                    # … or the reviewed entry is the one written with intermediates and the site now has them written out: compare both expanded
+                    for e_ in T.SITES_LIST:
+                        ep_ = e_["_key"].split("|", 2)
+                        if len(ep_) == 3 and ep_[0] == s.func.path and ep_[1] == s.kind and id(e_) not in used_shapes and e_.get("xkey") == txt2:
+                            used_shapes.add(id(e_))
+                            ent = e_
+                            break
         if ent is None and s.func.path in T.FUNCS:
             fe = T.FUNCS[s.func.path]
             kk = (s.func.path, s.kind)
